@@ -14,6 +14,7 @@ package c19
 import (
 	"context"
 	"fmt"
+	"os"
 	"regexp"
 	"runtime"
 	"runtime/debug"
@@ -38,6 +39,9 @@ var documentedCodes = map[int]bool{0: true, 1: true, 2: true, 4: true, 8: true, 
 // internalMarkers are texts of Go runtime failures; they never belong to a
 // documented csvq message.
 var internalMarkers = []string{"runtime error", "interface conversion", "nil pointer", "index out of range", "slice bounds out of range", "makeslice", "goroutine ", "panic:"}
+
+// C19_SLOW=1 logs executions that take more than half a second (tuning aid).
+var slowLog = os.Getenv("C19_SLOW")
 
 var digitsRe = regexp.MustCompile(`[0-9]+`)
 
@@ -177,6 +181,14 @@ type execOut struct {
 // hit is re-tried once in isolation with a four times longer limit; only a
 // repeated hit is reported (TimedOut).
 func execGuarded(opt run.Opt, sql string, inspect func(s *run.Sess, o *execOut)) execOut {
+	if slowLog != "" {
+		started := time.Now()
+		defer func() {
+			if d := time.Since(started); d > 500*time.Millisecond {
+				fmt.Fprintf(os.Stderr, "SLOW %v %s\n", d, clip(sql, 500))
+			}
+		}()
+	}
 	o := execOnce(opt, sql, inspect, 20*time.Second)
 	if o.TimedOut {
 		fw.AddExtra("watchdog_retries", 1)
